@@ -1165,18 +1165,9 @@ impl<T: PackedInt> IntVec<T> {
             return true;
         }
         
-        // Sample every 16th element for fast sorted detection
-        let sample_step = (values.len() / 16).max(1);
-        let mut prev = values[0];
-        
-        for i in (sample_step..values.len()).step_by(sample_step) {
-            if values[i] < prev {
-                return false;
-            }
-            prev = values[i];
-        }
-        
-        true
+        // The result selects the Delta strategy, whose encoder subtracts neighbours: every adjacent
+        // pair has to be in order, a sampled check lets unsorted input through
+        values.windows(2).all(|w| w[0] <= w[1])
     }
 
     /// Bulk-optimized compression with pre-allocation and chunked writing
